@@ -42,8 +42,12 @@ def name_case(cid, name):
 def graph_cases(rng, n):
     """include graphs over up to 5 files: cycles, diamonds, repeated includes, missing files, directories"""
     out = []
-    names = ["f0.jst", "f1.jst", "sub/f2.jst", "sub/f3.jst", "sub/deep/f4.jst"]
+    pools = [["f0.jst", "f1.jst", "sub/f2.jst", "sub/f3.jst", "sub/deep/f4.jst"],
+             # names that differ only in letter case, or where one is a prefix/suffix of another, are different files
+             ["Pets.jst", "pets.jst", "sub/PETS.jst", "sub/pets.jst", "sub/deep/Pets.jst"],
+             ["a.jst", "A.jst", "sub/a.jst", "sub/a.jst.jst", "sub/deep/a.jst"]]
     for i in range(n):
+        names = pools[0] if rng.random() < 0.5 else rng.choice(pools[1:])
         k = rng.randint(1, 5)
         use = names[:k]
         files, edges = {}, {}
